@@ -180,7 +180,7 @@ package phase2
 //@   requires forall j int :: 0 <= j && j < len(g.Nodes) ==> g.Nodes[j] != nil && g.Nodes[j].Layer >= 0
 //@   modifies Node.Layer, map[int]int, alloc
 //@   ensures[feasible|C03,C10] feasibleOut()
-//@   ensures[nonneg|C03,C10] forall j int :: 0 <= j && j < len(g.Nodes) ==> g.Nodes[j].Layer >= 0
+//@   ensures[nonneg|C01,C03,C10] forall j int :: 0 <= j && j < len(g.Nodes) ==> g.Nodes[j].Layer >= 0
 //@   loop range(g.Nodes)#1 index a
 //@     invariant lmax >= 0 && (forall j int :: 0 <= j && j < a ==> g.Nodes[j].Layer <= lmax)
 //@   loop range(g.Nodes)#2 index b
@@ -194,3 +194,11 @@ package phase2
 //@     invariant forall k int :: 0 <= k && k < d ==> high <= n.Out[k].To.Layer - n.Out[k].Delta
 //@   loop for(i<=high)#1
 //@     invariant low <= newl && (newl <= high || newl == low)
+
+// The network simplex layerer ends with every layer >= 0 (C01: phase2.Alg.Process indexes its band list with them):
+// whatever the pivots and the balancing did, the last step on every path is normalize or the balancing that keeps the
+// sign. (The preconditions of normalize and vbalance - distinct nodes, a feasible layering - are not established here;
+// the check claims only the postcondition and lists them as assumed.)
+//@ func execNetworkSimplex
+//@   requires g != nil && len(g.Nodes) >= 1
+//@   ensures[nonneg|C01] forall j int :: 0 <= j && j < len(g.Nodes) ==> g.Nodes[j].Layer >= 0
